@@ -246,6 +246,8 @@ def to_term(v):
     if isinstance(v, StrConst):
         return z3.Const("str:" + v.s, OBJ)
     if isinstance(v, Ptr):
+        if isinstance(v.node.val, Opaque):
+            return z3.Const("ptrto:" + str(v.node.val.term), OBJ)
         return z3.Const("ptr:" + str(v.node.name), OBJ)
     if isinstance(v, Node):
         if v.val is not None:
@@ -593,10 +595,10 @@ class Executor:
         raise Unsupported("rvalue " + k)
 
     # ---------------------------------------------------------------- driver
-    def run(self, body, args=None, pre=None, frame_name="f"):
+    def run(self, body, args=None, pre=None, frame_name="f", pc0=None, events0=None):
         """args: list of values for params (None -> lazily symbolic named arg<i>). Returns list[Path]."""
         self.ctx.encoded_bodies.add(body.name)
-        st = {"mem": {}, "names": {0: frame_name}, "events": [], "pc": [], "nframes": 1}
+        st = {"mem": {}, "names": {0: frame_name}, "events": list(events0 or []), "pc": list(pc0 or []), "nframes": 1}
         for i, (idx, ty) in enumerate(body.params):
             n = Node(f"arg{i + 1}", ty)
             if args and i < len(args) and args[i] is not None:
@@ -889,6 +891,10 @@ class Executor:
                 aty = self.operand_type(body, a) or ""
                 if aty.strip().startswith("&mut") or aty.strip().startswith("*mut"):
                     hv = Opaque(z3.Const(ctx.fresh_name("havoc:" + v.node.name), OBJ))
+                    hook = getattr(ctx, "on_havoc", None)
+                    if hook and hook(self, st, v.node, callee):
+                        ctx.havoced.append(f"{v.node.name} by {callee[:60]} (recorded as an unknown write)")
+                        continue
                     v.node.val, v.node.kids = hv, {}
                     ctx.havoced.append(f"{v.node.name} by {callee[:60]}")
         st["events"].append(Event("call", callee, argvals, list(st["pc"]), (body.name, bb), r, body.name, bb))
